@@ -494,7 +494,24 @@ fn run_case(case: &Case) -> Outcome {
     if case.shared.is_some() {
         opts_run.span_events = 0; // whoever drops the last clone would emit the shared root's close record
     }
-    let mutex = case.mutex && !has_tee(&case.writer) && case.fmt != Fmt::Pretty;
+    // (every sink at most once in the expression: the library's writer keeps its sink locked for
+    // as long as it lives, so a defect that builds a second writer for the same sink while the
+    // first is alive would hang the case instead of failing it; with distinct sinks the same
+    // defect shows up as a routing error)
+    fn leaves(w: &W, out: &mut Vec<u8>) {
+        match w {
+            W::Sink(i) => out.push(*i % 3),
+            W::MaxLevel(a, _) | W::MinLevel(a, _) | W::Filter(a, _) | W::Boxed(a) => leaves(a, out),
+            W::Tee(a, b) | W::OrElseMax(a, _, b) | W::OrElseFilter(a, _, b) => {
+                leaves(a, out);
+                leaves(b, out)
+            }
+        }
+    }
+    let mut lv = vec![];
+    leaves(&case.writer, &mut lv);
+    let distinct = (0..lv.len()).all(|i| !lv[..i].contains(&lv[i]));
+    let mutex = case.mutex && !has_tee(&case.writer) && distinct && case.fmt != Fmt::Pretty;
     MUTEXES.with(|m| *m.borrow_mut() = if mutex { Some(sinks.iter().map(|s| Arc::new(Mutex::new(RawW { log: s.log.clone(), cap: s.cap }))).collect()) } else { None });
     let layer = build_layer(case.fmt, opts_run, build_writer(&case.writer, &sinks));
     MUTEXES.with(|m| *m.borrow_mut() = None);
